@@ -9,6 +9,10 @@
                                            filter (PCall); two early returns when the filter raised an error
                                            (one of them - "attempt to index a non-table" - lets the query go on)
                  whereevalT.Close          luaSetRawGlobals(ARGV: nil); Put
+     scripts.go  lStatePool.New            lockNewGlobals, the __newindex handler of the global table: an assignment to a
+                                           name that is NOT in the table is refused - for every name, unless the handler
+                                           lets some through (Gen.LuaGlobals.newindex_passthrough); an assignment to a name
+                                           that IS in the table never reaches it (also `name = nil`)
    Which globals a function sets and how each is removed again (deferred / by Close / by a plain statement
    that an early return skips / never) is read from Gen/LuaGlobals.v, regenerated on every run.
 
@@ -21,27 +25,36 @@ Open Scope string_scope.
 
 Definition in_close_session (fn : string) : bool := in_strs fn close_session_fns.
 
-(* the (global, removal) pairs of function fn *)
-Definition sets_of (fn : string) : list (string * string) :=
-  map snd (filter (fun e => String.eqb (fst e) fn) global_sets).
+(* the globals function fn sets on the interpreter *)
+Definition sets_of (fn : string) : list string :=
+  map (fun e => fst (snd e)) (filter (fun e => String.eqb (fst e) fn) global_sets).
 
-(* does a global set by an invocation survive the invocation? early = it left by an early return *)
-Definition survives (early : bool) (removal : string) : bool :=
-  if String.eqb removal "defer" then false
-  else if String.eqb removal "plain" then early
-  else true.
+(* is global nm set to nil on the way out of an invocation of fn? early = it left by an early return:
+   only deferred removals run then *)
+Definition removed_by (fn : string) (early : bool) (nm : string) : bool :=
+  existsb (fun e => String.eqb (fst e) fn && String.eqb (fst (snd e)) nm &&
+                    (String.eqb (snd (snd e)) "defer" || negb early)) global_removals.
+
+(* the names lStatePool.New registers in the global table *)
+Definition base_globals : list string := (lua_set_globals ++ lua_base_fns)%list.
+
+(* what the Lua code of one invocation does to the global table: `name = value` / `name = nil` *)
+Record assign := mkA { a_name : string; a_nil : bool }.
 
 Record borrower := mkB { b_user : nat; b_state : nat; b_closes : bool (* returns it in Close() *) }.
 
 Record gpool := mkGP {
   g_idle : list nat;                    (* interpreters in the pool *)
   g_fresh : nat;
-  g_extra : list (nat * string);        (* (interpreter, global beyond the allow-list) *)
+  g_extra : list (nat * string);        (* (interpreter, global beyond the ones New registered) *)
+  g_gone : list (nat * string);         (* (interpreter, global New registered that a script set to nil) *)
   g_out : list borrower }.
 
 Inductive gop :=
 | GBorrow (u : nat) (closes : bool)     (* luapool.Get() by a request that returns it in Close() / by a deferred Put *)
-| GInvoke (u : nat) (fn : string) (early : bool)   (* one complete invocation of fn on u's interpreter *)
+| GInvoke (u : nat) (fn : string) (early : bool) (script : list assign)
+                                        (* one complete invocation of fn on u's interpreter; if fn runs Lua code
+                                           (PCall), the assignments to globals that code makes *)
 | GReturn (u : nat).                    (* Close() / the deferred Put *)
 
 Fixpoint find_b (l : list borrower) (u : nat) : option borrower :=
@@ -59,6 +72,21 @@ Fixpoint drop_b (l : list borrower) (u : nat) : list borrower :=
 Definition extras_of (e : list (nat * string)) (x : nat) : list string :=
   map snd (filter (fun p => Nat.eqb (fst p) x) e).
 
+(* the __newindex guard of the global table (lockNewGlobals): an assignment to a name that is not in the
+   table creates it only if the guard lets that name through (Gen.LuaGlobals.newindex_passthrough: it
+   should be empty); assignments to names that exist never reach the guard *)
+Definition created (fn : string) (script : list assign) : list string :=
+  if in_strs fn script_runners
+  then map a_name (filter (fun a => negb (a_nil a) && negb (in_strs (a_name a) base_globals) &&
+                                    in_strs (a_name a) newindex_passthrough) script)
+  else [].
+
+(* `name = nil` for a name New registered: the key exists, the guard is not asked, the name is gone *)
+Definition deleted (fn : string) (script : list assign) : list string :=
+  if in_strs fn script_runners
+  then map a_name (filter (fun a => a_nil a && in_strs (a_name a) base_globals) script)
+  else [].
+
 Definition gstep (p : gpool) (o : gop) : gpool :=
   match o with
   | GBorrow u closes =>
@@ -66,17 +94,18 @@ Definition gstep (p : gpool) (o : gop) : gpool :=
       | Some _ => p
       | None =>
           match rev (g_idle p) with
-          | x :: rest => mkGP (rev rest) (g_fresh p) (g_extra p) (mkB u x closes :: g_out p)
-          | [] => mkGP [] (S (g_fresh p)) (g_extra p) (mkB u (g_fresh p) closes :: g_out p)
+          | x :: rest => mkGP (rev rest) (g_fresh p) (g_extra p) (g_gone p) (mkB u x closes :: g_out p)
+          | [] => mkGP [] (S (g_fresh p)) (g_extra p) (g_gone p) (mkB u (g_fresh p) closes :: g_out p)
           end
       end
-  | GInvoke u fn early =>
+  | GInvoke u fn early script =>
       match find_b (g_out p) u with
       | Some b =>
           (* a function of the Close() borrower runs on such an interpreter only, and vice versa *)
           if Bool.eqb (in_close_session fn) (b_closes b) then
-            let left := filter (fun kr => survives early (snd kr)) (sets_of fn) in
-            mkGP (g_idle p) (g_fresh p) (map (fun kr => (b_state b, fst kr)) left ++ g_extra p) (g_out p)
+            let left := filter (fun nm => negb (removed_by fn early nm)) (sets_of fn ++ created fn script) in
+            mkGP (g_idle p) (g_fresh p) (map (fun nm => (b_state b, nm)) left ++ g_extra p)
+                 (map (fun nm => (b_state b, nm)) (deleted fn script) ++ g_gone p) (g_out p)
           else p
       | None => p
       end
@@ -86,13 +115,18 @@ Definition gstep (p : gpool) (o : gop) : gpool :=
           let e := if b_closes b
                    then filter (fun q => negb (Nat.eqb (fst q) (b_state b) && in_strs (snd q) close_removes)) (g_extra p)
                    else g_extra p in
-          mkGP (g_idle p ++ [b_state b]) (g_fresh p) e (drop_b (g_out p) u)
+          mkGP (g_idle p ++ [b_state b]) (g_fresh p) e (g_gone p) (drop_b (g_out p) u)
       | None => p
       end
   end.
 
 Definition grun (p : gpool) (ops : list gop) : gpool := fold_left gstep ops p.
-Definition ginit (n : nat) : gpool := mkGP (seq 0 n) n [] [].
+Definition ginit (n : nat) : gpool := mkGP (seq 0 n) n [] [] [].
 
 (* the global names of an interpreter *)
-Definition globals_of (p : gpool) (x : nat) : list string := (lua_set_globals ++ lua_base_fns ++ extras_of (g_extra p) x)%list.
+Definition globals_of (p : gpool) (x : nat) : list string :=
+  (filter (fun nm => negb (in_strs nm (extras_of (g_gone p) x))) base_globals ++ extras_of (g_extra p) x)%list.
+
+(* no Lua code of the history sets a name New registered to nil *)
+Definition no_deletes (ops : list gop) : Prop :=
+  forall u fn early script, In (GInvoke u fn early script) ops -> deleted fn script = [].
